@@ -245,16 +245,49 @@
 ;;
 ;; Vec is a builtin growable container with a uniform (ref null eq) element
 ;; representation, regardless of the source-level element type. Element values
-;; that are i32 (e.g. `int`) are boxed/unboxed via i31 at the call site by the
-;; WASM lowering pass; reference values pass through untouched via subtyping.
+;; that are i32 (e.g. `int`) are boxed/unboxed at the call site by the WASM
+;; lowering pass: as an i31 when the value fits in 31 bits, otherwise in a
+;; $_BoxedInt; reference values pass through untouched via subtyping.
 ;;
 ;; A Vec is a struct of {data: ref _VecData, length: i32}; capacity is the
 ;; backing array's length. Static methods take a (ref eq) placeholder receiver,
 ;; matching the pattern used by Str.fromInt and Process.println.
 ;; -----------------------------------------------------------------------------
 
+(type $_BoxedInt (struct (field i32)))
+
+(func $__$boxInt (param $v i32) (result (ref eq))
+  ;; $v fits in an i31 iff sign-extending its low 31 bits gives $v back
+  (if (result (ref eq))
+    (i32.eq
+      (local.get $v)
+      (i32.shr_s (i32.shl (local.get $v) (i32.const 1)) (i32.const 1)))
+    (then (ref.i31 (local.get $v)))
+    (else (struct.new $_BoxedInt (local.get $v)))
+  )
+)
+
 (func $__$unwrapI31 (param $v (ref eq)) (result i32)
-  (i31.get_s (ref.cast (ref i31) (local.get $v)))
+  (if (result i32) (ref.test (ref i31) (local.get $v))
+    (then (i31.get_s (ref.cast (ref i31) (local.get $v))))
+    (else (struct.get $_BoxedInt 0 (ref.cast (ref $_BoxedInt) (local.get $v))))
+  )
+)
+
+;; Element equality for Vec.eq: reference identity, except that equal ints boxed in
+;; two distinct $_BoxedInt are equal (an int has a single boxed representation).
+(func $__$vecElementEq (param $a (ref null eq)) (param $b (ref null eq)) (result i32)
+  (if (ref.eq (local.get $a) (local.get $b)) (then (return (i32.const 1))))
+  (if
+    (i32.and
+      (ref.test (ref $_BoxedInt) (local.get $a))
+      (ref.test (ref $_BoxedInt) (local.get $b)))
+    (then (return (i32.eq
+      (struct.get $_BoxedInt 0 (ref.cast (ref $_BoxedInt) (local.get $a)))
+      (struct.get $_BoxedInt 0 (ref.cast (ref $_BoxedInt) (local.get $b)))
+    )))
+  )
+  (i32.const 0)
 )
 
 (func $__Vec$empty (param $_this (ref eq)) (result (ref $_Vec))
@@ -362,7 +395,7 @@
   (block $done
     (loop $loop
       (br_if $done (i32.ge_s (local.get $i) (local.get $len)))
-      (if (i32.eqz (ref.eq
+      (if (i32.eqz (call $__$vecElementEq
         (array.get $_VecData (local.get $ad) (local.get $i))
         (array.get $_VecData (local.get $bd) (local.get $i))
       )) (then (return (i32.const 0))))
